@@ -1,0 +1,54 @@
+package v3
+
+import (
+	"github.com/chain4energy/c4e-chain/x/cfedistributor/types"
+	"github.com/cosmos/cosmos-sdk/codec"
+	"github.com/cosmos/cosmos-sdk/store/prefix"
+	storetypes "github.com/cosmos/cosmos-sdk/store/types"
+	sdk "github.com/cosmos/cosmos-sdk/types"
+)
+
+// MigrateStore stores every state under the key of its account. Version 2 kept the state of a base account under its
+// id as written; it is now kept under the canonical address, so a state written under another spelling of the
+// address (upper case) is moved, and the states of one account written in two spellings are merged.
+func MigrateStore(ctx sdk.Context, storeKey storetypes.StoreKey, cdc codec.BinaryCodec) error {
+	store := prefix.NewStore(ctx.KVStore(storeKey), types.StateKeyPrefix)
+	iterator := sdk.KVStorePrefixIterator(store, []byte{})
+	var oldKeys [][]byte
+	var states []types.State
+	for ; iterator.Valid(); iterator.Next() {
+		var state types.State
+		if err := cdc.Unmarshal(iterator.Value(), &state); err != nil {
+			iterator.Close()
+			return err
+		}
+		oldKeys = append(oldKeys, append([]byte{}, iterator.Key()...))
+		states = append(states, state)
+	}
+	iterator.Close()
+
+	var newKeys []string
+	merged := make(map[string]types.State)
+	for _, state := range states {
+		key := state.GetStateKey()
+		if previous, found := merged[key]; found {
+			previous.Remains = previous.Remains.Add(state.Remains...)
+			merged[key] = previous
+		} else {
+			merged[key] = state
+			newKeys = append(newKeys, key)
+		}
+	}
+	for _, key := range oldKeys {
+		store.Delete(key)
+	}
+	for _, key := range newKeys {
+		state := merged[key]
+		bz, err := cdc.Marshal(&state)
+		if err != nil {
+			return err
+		}
+		store.Set([]byte(key), bz)
+	}
+	return nil
+}
